@@ -44,7 +44,7 @@ func init() {
 		Run: runC14, Workers: 16, GOMAXPROCS: 4,
 		QuickTimeout: 8 * time.Minute, ThoroughTimeout: 40 * time.Minute,
 		QuickFloor: 60, ThoroughFloor: 1500,
-		RequiredCounters: []string{"settle_points_judged", "forbidden_rerun_windows", "required_reruns_seen", "waitexited_returns_judged", "exit_callbacks_checked", "backoff_resets_seen"},
+		RequiredCounters: []string{"settle_points_judged", "forbidden_rerun_windows", "required_reruns_seen", "waitexited_returns_judged", "exit_callbacks_checked", "backoff_resets_seen", "gated_timer_templates"},
 		Rule: "each case is a sequential history of 14-64 operations over SetRoutine/SetState/SetContext(same,new,nil; restart on/off)/RestartRoutine/ClearContext with scripted instance outcomes (success, unique error, run until cancelled), with and without a recording 1 ms backoff; after every operation the case settles " +
 			"(timers fired, goroutines quiescent) and the number of instance entries is compared with what the documented machine requires or forbids; WaitExited is issued at random points with both returnIfNotRunning values; " +
 			"non-trivial = the history contains at least one success, one failure and one restart-class call; distinct = distinct operation/outcome sequences",
@@ -864,6 +864,10 @@ func runC14(w *mon.Worker) {
 		w.Case("machine", map[string]any{"state": state, "retry": retry}, func(c *mon.Case) { c14Case(c, state, retry) })
 	}
 	mon.ClearProb()
+	for i := 0; i < w.Share(w.Scale(96, 3000)); i++ {
+		state := i%2 == 1
+		w.Case("stale-timer", map[string]any{"state": state}, func(c *mon.Case) { c14TimerGateCase(c, state) })
+	}
 }
 
 const (
@@ -1369,4 +1373,85 @@ func c14Case(c *mon.Case, state, retry bool) {
 		}
 		c.Count("exit_callbacks_checked", int64(succ))
 	}
+}
+
+// c14TimerGateCase holds a fired retry-timer callback before it takes the lock, lets the driver
+// restart or replace the routine and the new run finish, then releases the callback: nothing may be re-run.
+func c14TimerGateCase(c *mon.Case, state bool) {
+	r := c.Rng
+	variant := r.IntN(3) // 0 RestartRoutine, 1 new routine/state, 2 SetContext(new, restart=true)
+	second := r.IntN(2)  // outcome of the run that follows: 0 success, 1 error
+	behave := func(n, gen int) (bool, int, error, bool) {
+		switch {
+		case n == 0:
+			return false, 0, fmt.Errorf("error-inst-%d", n), false
+		case n == 1 && second == 0:
+			return false, 0, nil, false
+		case n == 1:
+			return false, 0, fmt.Errorf("error-inst-%d", n), false
+		case second == 1 && n == 2:
+			return false, 0, nil, false // the legitimate retry of the second failure succeeds
+		default:
+			return false, 0, nil, false
+		}
+	}
+	w := newRtWorld(c, state, false, true, behave)
+	cx := &rtCtxs{}
+	defer cx.cancelAll()
+	var obj any = w.rc
+	if w.src != nil {
+		obj = nil
+	}
+	g := mon.NewGate(verifhook.RoutineTimer, obj, 1)
+	ctx, tag := cx.fresh()
+	w.setContext("d", ctx, false, fmt.Sprint("new#", tag))
+	w.setGen("d", 1)
+	if !g.WaitArrived(5 * time.Second) {
+		g.Release()
+		c.Inconclusive("retry timer never fired")
+		return
+	}
+	// the callback of the timer armed by instance #0's failure is parked before the lock
+	var what string
+	switch variant {
+	case 0:
+		what = "RestartRoutine"
+		w.restart("d")
+	case 1:
+		what = "SetRoutine/SetState(new)"
+		w.setGen("d", 2)
+	default:
+		what = "SetContext(new, restart=true)"
+		ctx2, tag2 := cx.fresh()
+		w.setContext("d", ctx2, true, fmt.Sprint("new#", tag2))
+	}
+	if !mon.Quiesce(5 * time.Second) {
+		g.Release()
+		c.Inconclusive("no quiescence while the timer callback is parked")
+		return
+	}
+	before := len(w.instances())
+	c.Rec("d", "release the parked retry-timer callback", nil)
+	g.Release()
+	c.Count("gated_timer_templates", 1)
+	c.NonTrivial()
+	c.Mix(uint64(variant)<<4 | uint64(second))
+	if !w.settle() || g.TimedOut.Load() {
+		c.Inconclusive("no quiescence after release")
+		return
+	}
+	insts := w.instances()
+	want := 2
+	if second == 1 {
+		want = 3 // the second failure is legitimately retried once (and then succeeds)
+	}
+	if before != 2 && !(second == 1 && before == 3) {
+		c.Inconclusive(fmt.Sprintf("unexpected instance count %d before release", before))
+		return
+	}
+	if len(insts) != want {
+		c.Violate("machine", "routine-rerun-by-stale-retry-timer", "instance #0 failed and armed a retry timer; its callback was held before the lock while %s ran and the next run returned (%s); after releasing the callback %d instances have entered in total, the documented machine gives %d (a stale timer re-ran a routine it did not belong to)",
+			what, map[int]string{0: "success", 1: "an error, retried once"}[second], len(insts), want)
+	}
+	w.clearContext("d")
 }
